@@ -296,3 +296,39 @@ func fmtCounts(m map[string]int) string {
 	}
 	return sb.String()
 }
+
+// NewViolations counts diagnostics that are not listed as known findings.
+func (r *Report) NewViolations(findings []Finding) int {
+	known := map[string]bool{}
+	for _, f := range findings {
+		if f.Property == r.Property && f.Status == "known" {
+			known[f.Key()] = true
+		}
+	}
+	n := 0
+	for _, d := range r.diags {
+		if !(known[d.Key()] && d.Kind == "violation") {
+			n++
+		}
+	}
+	return n
+}
+
+// ReplayKeys reads the obligation keys recorded in a replay file.
+func ReplayKeys(path string) ([]string, error) {
+	b, err := os.ReadFile(path)
+	if err != nil {
+		return nil, err
+	}
+	var f struct {
+		Diagnostics []Diag `json:"diagnostics"`
+	}
+	if err := json.Unmarshal(b, &f); err != nil {
+		return nil, err
+	}
+	var out []string
+	for _, d := range f.Diagnostics {
+		out = append(out, d.Key())
+	}
+	return out, nil
+}
